@@ -82,3 +82,12 @@ add("C15", "exploration",
     "(C05/C07 rules stay active), late acknowledgements are delivered, and an end-of-script probe counts free flow-control slots. distinct = distinct (R, abstract trace shape).",
     {"quick": ["checked"], "thorough": ["checked", "fast"]},
     {"quick": {"cancellations": 5000, "late_acks_for_cancelled_ops": 500, "quota_probes": 1000}, "thorough": {"cancellations": 500000}})
+
+add("C03", "exploration",
+    "one inbound packet sequence is delivered under many transport chunkings and compared (stream items, acknowledgement bytes written, operation results) with the same bytes delivered one packet per read, "
+    "and with the model's ground truth: ALL 2^(n-1) compositions of short streams (as trickled arrivals and as read-size caps), every single cut position and every fixed read size 1..1100 of a 20 KiB stream "
+    "with 1-/2-/3-byte remaining lengths, packet boundaries swept across the client's own 512/1024-byte buffer steps, PRNG compositions; all under the wake-only executor, where "
+    "`unread input, run() pending, no waker registered` at quiescence is a lost wakeup and run() ending without the mock signalling EOF is a premature end-of-stream. "
+    "distinct = distinct (packet sequence, chunk plan) pairs.",
+    {"quick": ["checked", "fast"], "thorough": ["checked", "fast", "dev"]},
+    {"quick": {"compositions": 20000, "single_cuts": 2000, "fixed_read_sizes": 500}, "thorough": {"compositions": 500000}})
